@@ -2,7 +2,12 @@
 from mirlib import facts, flow, ir, symx
 from mirlib.symx import mk_adt, show, vbool, vint
 from rules import kernel, shared
-from rules.kernel import deep_strip, strip, is_call, effects_named, cond_val, int_of
+from rules.kernel import strip, is_call, effects_named, cond_val, int_of, unloop
+from rules.kernel import deep_strip as _deep_strip
+
+
+def deep_strip(v):
+    return _deep_strip(unloop(v))
 
 EXPLANATION = """
 Decided: C20.F-frozen (the set of varied positions `indexes` is computed once, in `new`, as exactly the positions of
